@@ -162,7 +162,8 @@ class _Rewriter(ast.NodeTransformer):
 
         def call(fn, *a):
             return ast.Call(ast.Name(fn, ast.Load()), list(a), [])
-        body2 = _ReplaceContinue(lp).run(node.body)
+        import copy as _copy        # (a copy: nested `continue`s are replaced in place, the original loop must keep its own)
+        body2 = _ReplaceContinue(lp).run(_copy.deepcopy(node.body))
         new = []
         if isinstance(node, ast.For):
             new.append(ast.Assign([ast.Name(lp, ast.Store())], call("_pyvc_for_begin", key, node.iter, locs)))
@@ -184,6 +185,16 @@ class _Rewriter(ast.NodeTransformer):
         inner.extend(body2)
         inner.append(ast.Expr(call("_pyvc_loop_back", ast.Name(lp, ast.Load()), locs)))
         new.append(ast.While(ast.Constant(True), inner, []))
+        if isinstance(node, ast.For) and getattr(spec, "native_if_concrete", False):
+            # opt-in: a sequence of concrete length is simply iterated by CPython (exact), the
+            # invariant cut is used only when the length is symbolic
+            itn = f"_pyvc_it{self.uid}"
+            new[0] = ast.Assign([ast.Name(lp, ast.Store())], call("_pyvc_for_begin", key, ast.Name(itn, ast.Load()), locs))
+            orig = ast.For(node.target, ast.Name(itn, ast.Load()), node.body, [])
+            cond = ast.BoolOp(ast.And(), [call("_pyvc_active"), call("_pyvc_cut_wanted", ast.Name(itn, ast.Load()))])
+            wrapped = [ast.Assign([ast.Name(itn, ast.Store())], node.iter), ast.If(cond, new, [orig])]
+            out = [ast.fix_missing_locations(_copy_locs(w, node)) for w in wrapped]
+            return [ast.copy_location(w, node) for w in out]
         wrapped = ast.If(call("_pyvc_active"), new, [node])
         return ast.copy_location(ast.fix_missing_locations(_copy_locs(wrapped, node)), node)
 
@@ -200,11 +211,42 @@ class _Rewriter(ast.NodeTransformer):
                 body = body[:i] + [_copy_locs(guard, body[min(i, len(body) - 1)])] + body[i:]
                 self.counts["ghost"] += 1
                 continue
+            if where in ("before*", "after*"):      # at EVERY matching simple statement of the function
+                n_ins = _insert_every(body, pattern, code, where[:-1])
+                if not n_ins:
+                    raise SpecError(f"ghost statement: pattern {pattern!r} not found in {self.relpath}:{q}")
+                self.counts["ghost"] += n_ins
+                continue
             ok = _insert_after(body, pattern, guard, where)
             if not ok:
                 raise SpecError(f"ghost statement: pattern {pattern!r} not found in {self.relpath}:{q}")
             self.counts["ghost"] += 1
         return body
+
+
+def _insert_every(body, pattern, code, where):
+    """ghost statement before/after every simple statement whose text contains the pattern; returns the count"""
+    n, i = 0, 0
+    while i < len(body):
+        st = body[i]
+        if getattr(st, "_pyvc_ghost", False):
+            i += 1
+            continue
+        if not isinstance(st, (ast.If, ast.While, ast.For, ast.With, ast.Try)) and pattern in ast.unparse(st):
+            g = _copy_locs(ast.If(ast.Call(ast.Name("_pyvc_active", ast.Load()), [], []), ast.parse(code).body, []), st)
+            g._pyvc_ghost = True
+            body.insert(i if where == "before" else i + 1, g)
+            n += 1
+            i += 2
+            continue
+        for fld in ("body", "orelse", "finalbody"):
+            sub = getattr(st, fld, None)
+            if isinstance(sub, list) and sub and isinstance(sub[0], ast.stmt):
+                n += _insert_every(sub, pattern, code, where)
+        for h in getattr(st, "handlers", []) or []:
+            n += _insert_every(h.body, pattern, code, where)
+        i += 1
+    return n
 
 
 def _insert_after(body, pattern, guard, where):
@@ -337,6 +379,7 @@ class _Loader(importlib.machinery.SourceFileLoader):
         d["_pyvc_for_more"] = loops.for_more
         d["_pyvc_for_next"] = loops.for_next
         d["_pyvc_loop_back"] = loops.loop_back
+        d["_pyvc_cut_wanted"] = loops.cut_wanted
         LOADED[module.__name__] = os.path.relpath(self.get_filename(module.__name__), REPO)
         super().exec_module(module)
         # stdlib modules whose C implementations need concrete values are replaced, in the
